@@ -8,7 +8,7 @@ SIGS_OUT = ['', 'i', 's', 'is', 'ai', '(ii)', 'as', '(s)', 'a(is)']       # the 
 OUT_VALUE = {'': None, 'i': 5, 's': 'res', 'is': (4, 'four'), 'ai': [1, 2, 3], '(ii)': (1, 2), 'as': ['only'], '(s)': ('one',), 'a(is)': [(1, 'x')]}
 OUT_CANON = {'': None, 'i': [5], 's': ['res'], 'is': [4, 'four'], 'ai': [[1, 2, 3]], '(ii)': [[1, 2]], 'as': [['only']], '(s)': [['one']], 'a(is)': [[[1, 'x']]]}
 OUTCOMES = ['value', 'deferred', 'deferred_fail', 'raise_named', 'raise_plain', 'raise_badname', 'raise_nul', 'raise_oddclass', 'unencodable',
-            'raise_notimpl', 'raise_typeerror', 'deferred_fail_notimpl', 'raise_empty', 'raise_unnamed_base', 'deferred_fail_unnamed_base', 'raise_nulname', 'raise_surrogatename', 'raise_tuplename']
+            'raise_notimpl', 'raise_typeerror', 'deferred_fail_notimpl', 'raise_empty', 'raise_unnamed_base', 'deferred_fail_unnamed_base', 'raise_nulname', 'raise_surrogatename', 'raise_tuplename', 'raise_localclass']
 
 
 class Conn:
@@ -101,6 +101,10 @@ def build_scenario(rnd):
                 raise NulNameError('the name has a NUL, impl %d' % impl_id)
             if outcome == 'raise_surrogatename':
                 raise SurrogateNameError('the name has a lone surrogate, impl %d' % impl_id)
+            if outcome == 'raise_localclass':
+                class LocalError(Exception):          # defined inside a function: its name is still LocalError
+                    pass
+                raise LocalError('local class, impl %d' % impl_id)
             if outcome == 'raise_tuplename':
                 raise TupleNameError('the name is a pair, impl %d' % impl_id)
             if outcome == 'raise_unnamed_base':
@@ -293,14 +297,14 @@ def one_call(rnd, sc, serial):
                 'raise_typeerror': 'org.txdbus.PythonException.TypeError', 'deferred_fail_notimpl': 'org.txdbus.PythonException.NotImplementedError',
                 'raise_empty': 'org.txdbus.PythonException.RuntimeError', 'raise_unnamed_base': 'org.txdbus.PythonException.AppError',
                 'deferred_fail_unnamed_base': 'org.txdbus.PythonException.AppError', 'raise_nulname': 'org.txdbus.InvalidErrorName',
-                'raise_surrogatename': 'org.txdbus.InvalidErrorName', 'raise_tuplename': 'org.txdbus.InvalidErrorName'}.get(outcome)
+                'raise_surrogatename': 'org.txdbus.InvalidErrorName', 'raise_tuplename': 'org.txdbus.InvalidErrorName', 'raise_localclass': 'org.txdbus.PythonException.LocalError'}.get(outcome)
     if type(r).__name__ != 'ErrorMessage':
         return '%s (outcome %s): reply is %s, expected an error' % (what, outcome, type(r).__name__)
     if want_err and r.error_name != want_err:
         return '%s (outcome %s): error reply named %r, expected %r' % (what, outcome, r.error_name, want_err)
     if outcome == 'raise_empty' and r.body and r.body[0] != '':
         return '%s (outcome %s): the exception has no text, the error reply carries the message %r' % (what, outcome, r.body[0])
-    if outcome in ('raise_notimpl', 'raise_typeerror', 'deferred_fail_notimpl', 'raise_unnamed_base', 'deferred_fail_unnamed_base', 'raise_nulname', 'raise_surrogatename', 'raise_tuplename') and not (r.body and 'impl' in str(r.body[0])):
+    if outcome in ('raise_notimpl', 'raise_typeerror', 'deferred_fail_notimpl', 'raise_unnamed_base', 'deferred_fail_unnamed_base', 'raise_nulname', 'raise_surrogatename', 'raise_tuplename', 'raise_localclass') and not (r.body and 'impl' in str(r.body[0])):
         return '%s (outcome %s): the error reply carries %r, not the text of the exception' % (what, outcome, r.body)
     return None
 
@@ -320,6 +324,15 @@ def builtin_cases():
         handler.handleMethodCallMessage(p)
         if len(conn.sent) != 1 or conn.sent[0].reply_serial != p.serial or conn.sent[0].destination != ':1.9' or type(conn.sent[0]).__name__ != 'MethodReturnMessage':
             return '%s.%s on %s: replies %r' % (iface, member, path, [(type(r).__name__, getattr(r, 'error_name', None), r.destination) for r in conn.sent])
+    # Introspect where there is nothing - no object, nothing beneath: exactly one reply, UnknownObject
+    for path in ('/nowhere', '/org/verif/Ob', '/org/verif/Obj/below', '/org/verif/Objx'):
+        call = message.MethodCallMessage(path, 'Introspect', interface='org.freedesktop.DBus.Introspectable')
+        p = message.parseMessage(call.rawMessage, [])
+        p.sender = ':1.9'
+        del conn.sent[:]
+        handler.handleMethodCallMessage(p)
+        if len(conn.sent) != 1 or getattr(conn.sent[0], 'error_name', None) != 'org.freedesktop.DBus.Error.UnknownObject' or conn.sent[0].reply_serial != p.serial:
+            return 'Introspect on %s (nothing exported at or beneath it): replies %r, expected one UnknownObject error' % (path, [(type(r).__name__, getattr(r, 'error_name', None)) for r in conn.sent])
     return None
 
 
